@@ -345,7 +345,7 @@ def vector_replay(records, lib, on_fail):
             if not fails:
                 fails += compare_values(r, name, (t1, t2), val)
         if fails:
-            on_fail(t1, fails)
+            on_fail(dict(t1, _pair=t2), fails)
     return n
 
 
